@@ -38,6 +38,8 @@ pub enum V<'tcx> {
     Str(String),
     /// slice iterator model: pointer with slice meta, front, back, flags (bit0: mutable, bit1: reversed)
     SliceIter(Ptr, usize, usize, u32),
+    /// modelled library object (e.g. Zip of two modelled iterators)
+    Obj(&'static str, Vec<V<'tcx>>),
 }
 
 impl<'tcx> V<'tcx> {
